@@ -133,12 +133,15 @@ def run(tier, seed):
 
     # ---- G: every sequential sequence
     cfg = "MC_Alloc_gen5" if thorough else "MC_Alloc_gen"
-    r = vlib.tlc("MC_Alloc", cfg, workers=1, timeout=3000, coverage=True, tag="c19g", xmx="12g")  # 1 worker: printed lines must not interleave
+    r = vlib.tlc("MC_Alloc", cfg, workers=1, timeout=3000, tag="c19g", xmx="12g")  # 1 worker: printed lines must not interleave
     vlib.require_ok(r, cfg)
     run.add_tlc(r, cfg)
-    never = [a for a, (d, t) in r.coverage.items() if t == 0 and a not in ("AParentFail", "RParentFail")]
-    if never:
-        raise vlib.ToolError("vacuity gate: actions never taken in %s: %s" % (cfg, never))
+    # vacuity gate on a smaller instance of the same generator (coverage mode is slow)
+    rc = vlib.tlc("MC_Alloc", "MC_Alloc_gen3", workers=1, timeout=600, coverage=True, tag="c19gc")
+    vlib.require_ok(rc, "MC_Alloc_gen3")
+    never = [a for a, (d, t) in rc.coverage.items() if t == 0 and a not in ("AParentFail", "RParentFail")]
+    if never or not rc.coverage:
+        raise vlib.ToolError("vacuity gate: actions never taken in MC_Alloc_gen3: %s" % never)
     cases = vlib.tagged_json(r, "REPLAY")
     if not cases:
         raise vlib.ToolError("generator printed no cases")
@@ -171,8 +174,9 @@ def run(tier, seed):
     if thorough:
         plans = [(1, 200, 8), (2, 150, 5), (3, 120, 4), (4, 100, 3), (8, 40, 2), (16, 20, 1)]
     nstress = 0
-    for i, (thr, epochs, ops) in enumerate(plans):
-        for limit in (4096, 24):
+    for limit in (4096, 24):
+        allev = []
+        for i, (thr, epochs, ops) in enumerate(plans):
             p = vlib.run_tool([vlib.rv("rv-alloc"), "stress", str(thr), str(epochs), str(ops), str(limit)],
                               timeout=600, env={"VERIF_SEED": str(seed * 1000 + i)})
             ev = [json.loads(x) for x in p.stdout.splitlines() if x.strip()]
@@ -183,7 +187,13 @@ def run(tier, seed):
             if nstress == 0:
                 run.sample({"leg": "V", "event": ev[1] if len(ev) > 1 else ev[0]})
             nstress += 1
-            validate_events(run, ev, "st%d-%d" % (thr, limit), "alloc-stress")
+            # block ids are per run: keep them apart when runs are concatenated (each run ends with an 'end' event)
+            for e in ev:
+                for o in e.get("ops", []):
+                    o["blk"] += (i + 1) * 100000000
+                    o["thr"] += (i + 1) * 100
+            allev += ev
+        validate_events(run, allev, "st-%d" % limit, "alloc-stress")
 
     # ---- binding is not vacuous: a corrupted trace must be rejected
     p = vlib.run_tool([vlib.rv("rv-alloc"), "stress", "2", "6", "3", "4096"], timeout=120, env={"VERIF_SEED": "7"})
